@@ -117,7 +117,8 @@ impl<'h> FindMatchesImpl<'h> {
     /// being returned.
     pub(crate) fn peek_n(&mut self, n: usize) -> PeekResult {
         let mut char_indices = self.char_indices.clone();
-        let mut matches = Vec::with_capacity(n);
+        // `n` comes from the caller; it only bounds the number of matches, it is no size hint.
+        let mut matches = Vec::with_capacity(n.min(16));
         let mut mode_switch = false;
         let mut new_mode = 0;
         while matches.len() < n {
